@@ -217,8 +217,18 @@ def sparse_case(ctx, col, case, rng, tmp):
             col.count("stored_samples_checked")
             got = float(SparseHeightMap.get_depth_at(m, float(x), float(y)))
             if abs(got - scale * z) > 1e-9 * scale * max(1.0, abs(z)):
-                return fail("stored-sample-not-reproduced", x=x, y=y, got=got, want=scale * z,
-                            loaded_from_file=m is not hm)
+                # known mechanism: a data point that is a vertex of the convex hull is occasionally
+                # classified as outside by the triangulation's point location and gets the fill value
+                from scipy.spatial import ConvexHull
+                idx = int(np.argmin(np.abs(pts[:, 0] - x) + np.abs(pts[:, 1] - y)))
+                on_hull = idx in set(ConvexHull(pts[:, :2]).vertices)
+                what = "stored-sample-not-reproduced"
+                col.violation(what, ctx.case_ref(case),
+                              {**info, "x": x, "y": y, "got": got, "want": scale * z,
+                               "loaded_from_file": m is not hm, "is_hull_vertex": on_hull},
+                              mechanism=("c19:sparse:hull-vertex-gets-fill-value" if on_hull and got == 0.0
+                                         else f"c19:sparse:{what}"))
+                return False
     for _ in range(10):
         # strictly inside the hull: a convex combination of three data points
         i, j, k = rng.sample(range(n), 3)
